@@ -41,6 +41,25 @@ def immutable_literal(v):
     return isinstance(v, ast.Tuple) and all(immutable_literal(e) for e in v.elts)
 
 
+def immutable_value(v, depth=0):
+    import types
+    if v is None or isinstance(v, (bool, int, float, complex, str, bytes, range, type, types.FunctionType, types.BuiltinFunctionType,
+                                   types.ModuleType, property, staticmethod, classmethod)):
+        return True
+    if isinstance(v, (tuple, frozenset)) and depth < 4:
+        return all(immutable_value(x, depth + 1) for x in v)
+    return type(v).__module__ in ("logging",) or type(v).__name__ in ("Logger", "Pattern")  # loggers / compiled patterns: no parse state
+
+
+def bound_value_is_immutable(holder, x):
+    """The statement binds plain names whose run-time values (read off the imported module / class) are immutable objects."""
+    tg = x.targets if isinstance(x, ast.Assign) else [x.target] if isinstance(x, ast.AnnAssign) and x.value is not None else None
+    if not tg or not all(isinstance(t, ast.Name) for t in tg):
+        return False
+    missing = object()
+    return all(immutable_value(getattr(holder, t.id, missing)) and getattr(holder, t.id, missing) is not missing for t in tg)
+
+
 def immutable_binding(x):
     if isinstance(x, ast.Assign):
         return immutable_literal(x.value)
@@ -49,6 +68,13 @@ def immutable_binding(x):
     return False
 
 
+# what a parse result, a helper result or a reader's behaviour must not depend on: the process environment, the console encoding,
+# the locale, the clock, random numbers, object addresses, the per-process string hash seed
+AMBIENT_ATTRS = {("os", "environ"), ("os", "getenv"), ("os", "getcwd"), ("sys", "stdout"), ("sys", "stdin"), ("sys", "stderr"), ("sys", "argv"),
+                 ("sys", "getdefaultencoding"), ("sys", "getfilesystemencoding"), ("sys", "flags"), ("datetime", "now"), ("datetime", "today"),
+                 ("datetime", "utcnow"), ("date", "today")}
+AMBIENT_MODULES = {"locale", "time", "random", "secrets", "platform", "getpass"}
+AMBIENT_CALLS = {"getenv", "id", "hash", "input", "getpreferredencoding", "getdefaultencoding"}
 READ_ONLY_METHODS = {"get", "keys", "values", "items", "index", "count", "copy", "startswith", "endswith", "find", "join", "format",
                      "hex", "decode", "encode", "split", "rsplit", "strip", "lower", "upper"}
 
@@ -101,8 +127,8 @@ def scan():
                 continue
             if isinstance(st, ast.Expr) and isinstance(st.value, ast.Constant):
                 continue
-            if immutable_binding(st):
-                continue  # immutable constants
+            if immutable_binding(st) or bound_value_is_immutable(extract.module(mod), st):
+                continue  # immutable constants (literal, or computed: the value the name holds after import is immutable)
             names = [t.id for t in (st.targets if isinstance(st, ast.Assign) else [st.target] if isinstance(st, ast.AnnAssign) else [])
                      if isinstance(t, ast.Name)]
             fbodies = ast.Module(body=[x for x in tree.body if isinstance(x, (ast.FunctionDef, ast.ClassDef))], type_ignores=[])
@@ -119,7 +145,8 @@ def scan():
                 # a call) is shared by every instance, and an in-place update through self.<name> would leak from one object into the next
                 cls_bad = []
                 for x in n.body:
-                    if isinstance(x, (ast.FunctionDef, ast.Expr, ast.Pass)) or immutable_binding(x):
+                    if isinstance(x, (ast.FunctionDef, ast.Expr, ast.Pass)) or immutable_binding(x) \
+                            or bound_value_is_immutable(getattr(extract.module(mod), n.name, None), x):
                         continue
                     names = [t.id for t in (x.targets if isinstance(x, ast.Assign) else [x.target] if isinstance(x, ast.AnnAssign) else [])
                              if isinstance(t, ast.Name)]
@@ -176,6 +203,15 @@ def scan():
                     if not (n.func.id == "vars" and n.args):
                         bad.append(f"line {n.lineno}: {n.func.id}()")
             out.append((f"frame.writes_only_locals_self_or_own_containers[{q}]", not bad, {"violations": bad[:5]}))
+            amb = []
+            for n in ast.walk(fn):
+                if isinstance(n, ast.Attribute) and isinstance(n.value, ast.Name) and (n.value.id, n.attr) in AMBIENT_ATTRS:
+                    amb.append(f"line {n.lineno}: {n.value.id}.{n.attr}")
+                elif isinstance(n, ast.Attribute) and isinstance(n.value, ast.Name) and n.value.id in AMBIENT_MODULES and n.value.id not in locals_:
+                    amb.append(f"line {n.lineno}: {n.value.id}.{n.attr}")
+                elif isinstance(n, ast.Call) and isinstance(n.func, ast.Name) and n.func.id in AMBIENT_CALLS and n.func.id not in locals_:
+                    amb.append(f"line {n.lineno}: {n.func.id}()")
+            out.append((f"frame.reads_no_ambient_process_state[{q}]", not amb, {"reads": amb[:5]}))
     for mod in TABLE_MODULES:
         tree, _ = extract.module_ast(mod)
         bad = []
@@ -196,6 +232,10 @@ def units(tier):
         us += func_units(f"{M}.{q}", tier)
     us += func_units(R + ".parse", tier)
     us += func_units(R + "._parse_rtcm3", tier)
+    # "through however many reader objects": what a reader returns depends on its options and the stream position only - its
+    # contracts are stated over exactly that state (no counters, no memory of earlier frames or errors)
+    for q in ("read", "_do_error", "_read_bytes", "__init__", "__next__"):
+        us += func_units(f"{R}.{q}", tier)
     return us
 
 
